@@ -321,10 +321,17 @@ class Ctx:
         d = os.path.join(VERIF, "replays", self.pid)
         os.makedirs(d, exist_ok=True)
         path = os.path.join(d, h + ".json")
-        if len(self.violations) < 50:
+        written = getattr(self, "_written", None)
+        if written is None:
+            written = self._written = set()
+        if path not in written and len(written) < 50:
             with open(path, "w") as f:
                 json.dump(rec, f, indent=1, sort_keys=True)
-        self.violations.append((path, sig))
+            written.add(path)
+        if path in written:
+            self.violations.append((path, sig))
+        else:
+            self.violations.append((sorted(written)[0], sig))   # beyond 50 distinct: point at a written file
         return True
 
     def note(self, key, value):
